@@ -137,7 +137,7 @@ def connSOps (tL tRs : List MKey) (k : Conn α) : List SOp :=
     (if k.opSwitch ≠ lastStrOf tL then [⟨k.opSwitch, k.switchLR, headStr tRs.reverse (lastStrOf tL)⟩] else []) ++
     rightOpsOf k.shift tRs.reverse
 
-theorem toTermListS_eq (mt : MultiCouplingTerms α) :
+theorem multi_toTermListS_eq (mt : MultiCouplingTerms α) :
     mt.toTermListS = (mt.conns.zipIdx).filterMap (fun p =>
       match p.1 with
       | none => none
